@@ -32,6 +32,11 @@ type schedReader struct {
 	pending int // remainder of the current nominal chunk that did not fit
 }
 
+// onlyReader hides every method but Read (no Seek, no Len, no WriteTo)
+type onlyReader struct{ r io.Reader }
+
+func (o onlyReader) Read(p []byte) (int, error) { return o.r.Read(p) }
+
 // Seek supports rewinding to the start only (what go-astits' Rewind does)
 func (r *schedReader) Seek(off int64, whence int) (int64, error) {
 	if off != 0 || whence != io.SeekStart || r.orig == nil {
@@ -182,6 +187,32 @@ func readWith(format string, rd io.Reader) (s *astisub.Subtitles, err error) {
 	panic("format " + format)
 }
 
+func readTS(rd io.Reader, o astisub.TeletextOptions) (s *astisub.Subtitles, err error) {
+	defer func() {
+		if rec := recover(); rec != nil {
+			s, err = nil, fmt.Errorf("PANIC: %v", rec)
+		}
+	}()
+	return astisub.ReadFromTeletext(rd, o)
+}
+
+// tsPIDs: the PIDs (other than 0 and the null PID) of the 188-byte packets of a transport stream, at most 6
+func tsPIDs(doc []byte) []int {
+	var o []int
+	seen := map[int]bool{0: true, 0x1fff: true}
+	for i := 0; i+188 <= len(doc) && len(o) < 6; i += 188 {
+		if doc[i] != 0x47 {
+			continue
+		}
+		pid := int(doc[i+1]&0x1f)<<8 | int(doc[i+2])
+		if !seen[pid] {
+			seen[pid] = true
+			o = append(o, pid)
+		}
+	}
+	return o
+}
+
 func errClass(err error) string {
 	if err == nil {
 		return "ok"
@@ -324,6 +355,30 @@ func init() {
 		}
 		if berr == nil && !reflect.DeepEqual(base, got) {
 			return "diff value"
+		}
+		// the same through readers that cannot seek (pipes, sockets): all at once vs. the schedule
+		base, berr = readWith(a[0], onlyReader{bytes.NewReader(doc)})
+		got, gerr = readWith(a[0], onlyReader{&schedReader{data: append([]byte(nil), doc...), sizes: decInts(a[3]), end: a[2], limit: -1}})
+		if errClass(berr) != errClass(gerr) {
+			return fmt.Sprintf("diff class %s vs %s (readers without Seek)", errClass(berr), errClass(gerr))
+		}
+		if berr == nil && !reflect.DeepEqual(base, got) {
+			return "diff value (readers without Seek)"
+		}
+		if a[0] == "ts" {
+			// without Seek the teletext reader cannot rewind after looking for the PID: the PID is given (every PID
+			// present in the stream is tried)
+			for _, pid := range tsPIDs(doc) {
+				o := astisub.TeletextOptions{PID: pid}
+				base, berr := readTS(onlyReader{bytes.NewReader(doc)}, o)
+				got, gerr := readTS(onlyReader{&schedReader{data: append([]byte(nil), doc...), sizes: decInts(a[3]), end: a[2], limit: -1}}, o)
+				if errClass(berr) != errClass(gerr) {
+					return fmt.Sprintf("diff class %s vs %s (readers without Seek, PID %d)", errClass(berr), errClass(gerr), pid)
+				}
+				if berr == nil && !reflect.DeepEqual(base, got) {
+					return fmt.Sprintf("diff value (readers without Seek, PID %d)", pid)
+				}
+			}
 		}
 		return "same"
 	}, gen: func(c *ctx) {
